@@ -1,6 +1,11 @@
 //! Program generators of family `mem` (C02): random programs biased to string variables, aliasing
 //! shapes and reclamation events, and the enumerated product of DESIGN "### C02".
 //!
+//! Third round: the enumerated families `held_family` (computed operands of every length 1..40 held across calls
+//! into functions whose first allocation lies in a region that is reset) and `bulk_family` (every pool size class x
+//! bulk release mode with more than a quarter of the class's slots alive, then free, at once); the random generator
+//! carries both (`hq()`: no parameter, no local, a loop first — shape `held_across_loop_first`; `mass_release_block`).
+//!
 //! Both generators emit WELL-TYPED, terminating NaijaScript programs: the oracle of C02 is the
 //! differential frame-vs-no-frame run, so a program that trips one of the dynamic-typing panics of
 //! the runtime (another property's business) would only produce noise here.
@@ -1115,14 +1120,343 @@ fn cmd_family(out: &mut Vec<(String, String)>) {
     }
 }
 
-/// The enumerated products of method calls on temporaries and of command builder calls: (tag, source).
+/// The enumerated products of method calls on temporaries, of command builder calls, of temporaries held across
+/// calls and of mass releases: (tag, source).
 pub fn temp_programs() -> Vec<(String, String)> {
     let mut out = Vec::new();
     let mut seen = HashSet::new();
     temp_family(&mut out, &mut seen, false);
     temp_family(&mut out, &mut seen, true);
     cmd_family(&mut out);
+    held_family(&mut out);
+    bulk_family(&mut out);
     out
+}
+
+// ------------------------------------------------------------------------------------------------
+// computed temporaries of EVERY length held across a call: the caller is in the middle of an expression and
+// holds a string operand that lives on the frame (a variable read, a concatenation, an interpolated string, a
+// slice, a case mapping, an element read, a parameter read, a number text) whose end is, for most lengths, not
+// 8-byte aligned; the callee's FIRST allocation happens in a region that is reset — a loop entered before any
+// local is declared (several kinds of allocation in the body, `next` / `comot` exits, nested loops), a block, a
+// branch, a nested call, a recursion — or the callee has no locals at all; controls: one parameter, a local
+// declared first. The operand is used after the call. length 1..=40 x callee shape is complete; the source of
+// the operand and the holding context rotate so that each is complete against every single other dimension.
+
+const HELD_SRCS: [&str; 8] = ["var", "concat", "interp", "slice", "upper", "index", "param", "tostring"];
+const HELD_CTXS: [&str; 8] = ["add", "arrlit", "arg", "store", "recv", "double", "in-loop", "in-fn"];
+const HELD_CALLEES: [&str; 16] = [
+    "loop-append", "loop-tostring", "loop-arrlit", "loop-local", "loop-interp", "loop-call", "block-first", "if-first",
+    "nested-call", "no-locals", "loop-in-loop", "loop-next", "loop-comot", "recursion", "ctl-one-param", "ctl-local-first",
+];
+const HELD_MAX_LEN: usize = 40;
+
+fn cat_or_short(a: char, b: char, len: usize) -> String {
+    if len >= 2 { cat(a, b, len) } else { format!("\"{}\" add \"\"", two(a, b, len)) }
+}
+
+/// (globals, the expression) of a held operand of exactly `len` bytes.
+fn held_source(tag: &str, len: usize) -> (Vec<String>, String) {
+    let content = two('h', 'k', len);
+    let c = cat_or_short('h', 'k', len);
+    match tag {
+        "var" => (vec![format!("make hv get {c}")], "hv".into()),
+        "interp" => {
+            let lit = two('h', 'k', len - 1);
+            let (pre, suf) = lit.split_at(lit.len() - lit.len() / 2);
+            (vec!["make hn get 7".into()], format!("\"{pre}{{hn}}{suf}\""))
+        }
+        "slice" => (vec![], format!("\"xx{content}yy\".slice(2, {})", 2 + len)),
+        "upper" => (vec![], format!("\"{content}\".to_uppercase()")),
+        "index" => (vec![format!("make ha get [{c}, \"k\"]")], "ha[0]".into()),
+        "param" => (vec![], "p".into()),
+        "tostring" if len <= 15 => {
+            let digits = &"123456789123456"[..len];
+            (vec![format!("make hn get {digits}")], "to_string(hn)".into())
+        }
+        _ => (vec![], format!("({c})")),
+    }
+}
+
+/// (globals, function definitions, call expression) of callee shape `tag`; every call returns a short string.
+fn held_callee(tag: &str) -> (Vec<String>, Vec<String>, String) {
+    let globals =
+        vec!["make gi get 0".to_string(), "make gj get 0".into(), "make gs get \"g\" add \"s\"".into(), "make ga get [0]".into()];
+    let looped = |body: &[&str]| -> String {
+        let mut v = vec!["gi get 0".to_string(), "jasi (gi small pass 3) start".into(), "gi get gi add 1".into()];
+        v.extend(body.iter().map(|s| (*s).to_string()));
+        v.push("end".into());
+        v.join("\n")
+    };
+    let f = |params: &str, body: String| format!("do f({params}) start\n{body}\nreturn \"r\" add gi\nend");
+    let mut fns = Vec::new();
+    let mut call = "f()".to_string();
+    match tag {
+        "loop-append" => fns.push(f("", looped(&["gs get (gs add \"abcdefgh\").slice(0, 72)"]))),
+        "loop-tostring" => fns.push(f("", looped(&["gs get to_string(gi times 1001)"]))),
+        "loop-arrlit" => fns.push(f("", looped(&["ga get [gi, \"el\" add gi, [gi]]"]))),
+        "loop-local" => fns.push(f("", looped(&["make l get \"loc\" add gi", "gs get l add l"]))),
+        "loop-interp" => fns.push(f("", looped(&["gs get \"it{gi}-{gi}\""]))),
+        "loop-call" => {
+            fns.push("do leaf() start return \"leaf\" add gi end".into());
+            fns.push(f("", looped(&["gs get leaf()"])));
+        }
+        "block-first" => fns.push(f("", "start\nmake l get \"blk\" add gi\ngs get l\nend".into())),
+        "if-first" => fns.push(f("", "if to say (gi na gi) start\nmake l get \"iff\" add gi\ngs get l\nend".into())),
+        "nested-call" => {
+            fns.push(format!("do f2() start\n{}\nreturn \"r\" add gi\nend", looped(&["gs get gs add \"abcdefgh\""])));
+            fns.push("do f() start\nreturn f2()\nend".into());
+        }
+        "no-locals" => fns.push(f("", "gs get \"nl\" add gi\nga get [gs]".into())),
+        "loop-in-loop" => fns.push(f(
+            "",
+            looped(&["gj get 0", "jasi (gj small pass 2) start", "gj get gj add 1", "gs get \"in\" add gi add gj", "end"]),
+        )),
+        "loop-next" => fns.push(f(
+            "",
+            looped(&["gs get \"nx\" add gi", "if to say (gi small pass 3) start", "next", "end", "gs get gs add \"tail\""]),
+        )),
+        "loop-comot" => fns.push(f("", looped(&["gs get \"cm\" add gi", "if to say (gi na 2) start", "comot", "end"]))),
+        "recursion" => fns.push(format!(
+            "do f() start\ngj get gj add 1\nif to say (gj mod 3 pass 0) start\nf()\nend\n{}\nreturn \"r\" add gi\nend",
+            looped(&["gs get \"rc\" add gi"])
+        )),
+        "ctl-one-param" => {
+            fns.push(f("q", looped(&["gs get gs add \"abcdefgh\""])));
+            call = "f(1)".into();
+        }
+        _ => fns.push(f("", format!("make l get 0\n{}", looped(&["gs get gs add \"abcdefgh\""])))),
+    }
+    (globals, fns, call)
+}
+
+fn held_family(out: &mut Vec<(String, String)>) {
+    for len in 1..=HELD_MAX_LEN {
+        for (ci, ctag) in HELD_CALLEES.iter().enumerate() {
+            let stag = HELD_SRCS[(len + 3 * ci) % HELD_SRCS.len()];
+            let xtag = HELD_CTXS[(len + 2 * ci) % HELD_CTXS.len()];
+            let (mut lines, h) = held_source(stag, len);
+            let (globals, fns, call) = held_callee(ctag);
+            lines.extend(globals);
+            lines.extend(fns);
+            lines.push("do pair(a, b) start\nreturn [a, b]\nend".into());
+            // the statement that holds `h` across the call, then uses it
+            let stmt: Vec<String> = match xtag {
+                "arrlit" => vec![format!("shout([{h}, {call}, {h}])")],
+                "arg" => vec![format!("shout(pair({h}, {call}))")],
+                "store" => vec![format!("make r get {h} add {call}"), "shout(r)".into()],
+                "recv" => vec![format!("shout({h}.replace({call}, \"!\"))")],
+                "double" => vec![format!("shout({h} add {call} add {call})")],
+                "in-loop" => vec![
+                    "make w get 0".into(),
+                    "jasi (w small pass 2) start".into(),
+                    "w get w add 1".into(),
+                    format!("shout({h} add {call})"),
+                    "end".into(),
+                ],
+                _ => vec![format!("shout({h} add {call})")],
+            };
+            if xtag == "in-fn" || stag == "param" {
+                let (p, a) = if stag == "param" { ("p", cat_or_short('h', 'k', len)) } else { ("", String::new()) };
+                lines.push(format!("do holder({p}) start\n{}\nend", stmt.join("\n")));
+                lines.push(format!("holder({a})"));
+                lines.push(format!("holder({a})"));
+            } else {
+                lines.extend(stmt);
+            }
+            lines.push("shout(gs)".into());
+            lines.push("shout(\"done\")".into());
+            out.push((format!("held={stag} hlen={len} callee={ctag} ctx={xtag}"), lines.join("\n")));
+        }
+    }
+}
+
+// ------------------------------------------------------------------------------------------------
+// mass release: MANY pooled strings of ONE size class alive at once — more than a quarter, more than half of the
+// class's slots — then given back in bulk (elements overwritten one by one, popped in a loop, the array
+// reassigned, the owning block / function left, elements replaced by strings of another class, rows of a nested
+// array), while strings of the NEXT size class, a string beyond the largest slot and an array, all allocated
+// first, stay alive and are printed afterwards together with fresh strings of the released class.
+// size class (all 20) x release mode is complete; the fill level and the nesting rotate.
+
+/// (slot size, slot count) of the pool's size classes (src/arena/pool.rs: 8-byte spacing up to 128, then 32).
+fn pool_class(c: usize) -> (usize, usize) {
+    let size = if c < 16 { (c + 1) * 8 } else { 128 + (c - 15) * 32 };
+    let count = match c {
+        0..=3 => 16_384,
+        4..=7 => 4_096,
+        8..=15 => 1_024,
+        _ => 512,
+    };
+    (size, count)
+}
+
+/// Release modes. The first five give the slots back to the pool (index assignment, assignment of a popped
+/// element to a variable, scope exit of string LOCALS — one per activation of a recursion); the rest drop the
+/// strings without returning their slots on the present code (kept as controls for the smaller classes).
+const BULK_RELEASES: [&str; 9] = [
+    "overwrite", "overwrite-other-class", "pop-assign", "overwrite-rows", "recursion-locals", "pop-statement", "reassign",
+    "block-exit", "fn-exit",
+];
+
+/// A computed string of exactly `len` bytes ending in the decimal text of `counter` (4 digits: 1000..=9999
+/// — or 5: 10000..=99999 when `wide`); `len` below the digits gives just the digits.
+fn counted(len: usize, counter: &str, fill: char, wide: bool) -> String {
+    let digits = if wide { 5 } else { 4 };
+    if len <= digits { format!("\"\" add {counter}") } else { format!("\"{}\" add {counter}", rep(fill, len - digits)) }
+}
+
+fn bulk_program(class: usize, release: &str, level: usize) -> Option<(String, String)> {
+    let (size, count) = pool_class(class);
+    // just over a quarter / just over half / three quarters of the slots
+    let n = match level {
+        0 => count / 4 + 80,
+        1 => count / 2 + 80,
+        _ => count / 4 * 3,
+    };
+    let frees = matches!(release, "overwrite" | "overwrite-other-class" | "pop-assign" | "overwrite-rows" | "recursion-locals");
+    if (!frees && n > 2500) || (release == "recursion-locals" && n > 1250) {
+        return None;
+    }
+    let wide = n > 8000;
+    let base = if wide { 10_000 } else { 1_000 };
+    // lengths: the upper end of the class for the kept strings; victims in the next class (its upper and lower end)
+    let len = size.max(if wide { 5 } else { 4 });
+    let mut l: Vec<String> = Vec::new();
+    if class + 1 < 20 {
+        let (nsize, _) = pool_class(class + 1);
+        l.push(format!("make victim get {}", counted(nsize, "5000", 'v', false)));
+        l.push(format!("make victim2 get {}", counted(size + 1, "6000", 'w', false)));
+        l.push(format!("make victims get [{}, {}]", counted(nsize, "7000", 'x', false), counted(nsize - 1, "8000", 'y', false)));
+    } else {
+        l.push("make victim get \"last\" add 5000".into());
+        l.push("make victim2 get \"class\" add 6000".into());
+        l.push("make victims get [\"a\" add 7000, \"b\" add 8000]".into());
+    }
+    l.push(format!("make big get {}", counted(300, "9000", 'B', false)));
+    l.push("make nums get [1, 2, 3, 4, 5, 6, 7, 8]".into());
+    let elem = counted(len, "i", 'e', wide);
+    let fill = |name: &str| -> Vec<String> {
+        vec![
+            format!("make {name} get []"),
+            format!("make i get {base}"),
+            format!("jasi (i small pass {}) start", base + n),
+            format!("{name}.push({elem})"),
+            "i get i add 1".into(),
+            "end".into(),
+        ]
+    };
+    // (no `keep.len()` in a loop condition: reading an array copies it)
+    let each = |n: usize, body: &str| -> Vec<String> {
+        vec!["make j get 0".into(), format!("jasi (j small pass {n}) start"), body.to_string(), "j get j add 1".into(), "end".into()]
+    };
+    let probe = "shout(keep[1])";
+    match release {
+        "overwrite" => {
+            l.extend(fill("keep"));
+            l.push(probe.into());
+            l.extend(each(n, "keep[j] get 0"));
+            l.push("shout(keep.len())".into());
+        }
+        "overwrite-other-class" => {
+            l.extend(fill("keep"));
+            l.push(probe.into());
+            // the replacement lives in another class (8 bytes more, or 8 for the largest classes)
+            let other = if class < 15 { size + 8 } else { 8 };
+            l.extend(each(n, &format!("keep[j] get {}", counted(other, "(j add 1000)", 'o', false))));
+            l.push(probe.into());
+        }
+        "pop-assign" => {
+            l.extend(fill("keep"));
+            l.push(probe.into());
+            l.push("make last get \"\"".into());
+            l.extend(each(n, "last get keep.pop()"));
+            l.push("shout(last)".into());
+            l.push("shout(keep.len())".into());
+        }
+        "overwrite-rows" => {
+            // rows of two strings: the elements are released through a two-level index assignment
+            l.push("make keep get []".into());
+            l.push(format!("make i get {base}"));
+            l.push(format!("jasi (i small pass {}) start", base + n));
+            l.push(format!("keep.push([{}, {}])", counted(len, "i", 'e', wide), counted(len, "(i add 1)", 'f', wide)));
+            l.push("i get i add 2".into());
+            l.push("end".into());
+            l.push("shout(keep[1])".into());
+            l.extend(vec![
+                "make j get 0".to_string(),
+                format!("jasi (j small pass {}) start", n.div_ceil(2)),
+                "keep[j][0] get j".into(),
+                "keep[j][1] get null".into(),
+                "j get j add 1".into(),
+                "end".into(),
+            ]);
+            l.push("shout(keep[0])".into());
+        }
+        "recursion-locals" => {
+            // one string local per activation: all of them released while the recursion unwinds
+            l.push("do dive(d) start".into());
+            l.push(format!("make mine get {}", counted(len, "d", 'e', false)));
+            l.push(format!("if to say (d pass {base}) start"));
+            l.push("return dive(d minus 1) add 1".into());
+            l.push("end".into());
+            l.push("return mine.len()".into());
+            l.push("end".into());
+            l.push(format!("shout(dive({}))", base + n));
+        }
+        "pop-statement" => {
+            l.extend(fill("keep"));
+            l.push(probe.into());
+            l.extend(each(n, "keep.pop()"));
+            l.push("shout(keep.len())".into());
+        }
+        "reassign" => {
+            l.extend(fill("keep"));
+            l.push(probe.into());
+            l.push("keep get []".into());
+            l.push("shout(keep.len())".into());
+        }
+        "block-exit" => {
+            l.push("start".into());
+            l.extend(fill("keep"));
+            l.push(probe.into());
+            l.push("end".into());
+        }
+        _ => {
+            l.push("do hold_many() start".into());
+            l.extend(fill("keep"));
+            l.push(probe.into());
+            l.push("return keep.len()".into());
+            l.push("end".into());
+            l.push("shout(hold_many())".into());
+        }
+    }
+    // the survivors, then fresh strings of the released class (they reuse the freed slots), then the survivors again
+    let survivors = ["shout(victim)", "shout(victim2)", "shout(victims)", "shout(big)", "shout(nums)"];
+    l.extend(survivors.iter().map(|s| (*s).to_string()));
+    l.push(format!(
+        "make again get [{}, {}, {}]",
+        counted(len, "1111", 'n', false),
+        counted(len, "2222", 'n', false),
+        counted(len, "3333", 'n', false)
+    ));
+    l.push("shout(again)".into());
+    l.extend(survivors.iter().map(|s| (*s).to_string()));
+    l.push("shout(\"done\")".into());
+    let lvl = ["quarter", "half", "three-quarters"][level.min(2)];
+    Some((format!("bulk={release} cls={class} fill={lvl}"), l.join("\n")))
+}
+
+fn bulk_family(out: &mut Vec<(String, String)>) {
+    for class in 0..20 {
+        for (ri, release) in BULK_RELEASES.iter().enumerate() {
+            // the big classes (16384 slots) only just over a quarter: thousands of statements per program
+            let level = if class < 4 { 0 } else { (class + ri) % 3 };
+            if let Some(p) = bulk_program(class, release, level).or_else(|| bulk_program(class, release, 0)) {
+                out.push(p);
+            }
+        }
+    }
 }
 
 // ================================================================================================
@@ -1247,6 +1581,8 @@ struct Gen {
     storers: Vec<usize>,
     /// how often each of the temporary-receiver shapes was emitted
     shapes: BTreeMap<&'static str, u64>,
+    /// index (into `funcs`) of the fixed helper `hq()`: no parameter, no local, a loop first
+    loop_first: Option<usize>,
 }
 
 /// Lengths of the computed strings that are pushed, popped and stored by the temporary-receiver
@@ -1275,6 +1611,7 @@ impl Gen {
             next_counter: 0,
             storers: Vec::new(),
             shapes: BTreeMap::new(),
+            loop_first: None,
         }
     }
 
@@ -2391,6 +2728,16 @@ impl Gen {
                 self.emit(format!("shout([{}, {}, {fresh}])", e.t, e2.t));
                 self.shape("store_literal_elements");
             }
+            _ if self.loop_first.is_some_and(|fi| fi < self.cur_fn.unwrap_or(self.funcs.len())) && self.rng.chance(1, 2) => {
+                // the operand is held on the frame while `hq()` marks, loops and resets
+                match self.rng.below(4) {
+                    0 => self.emit(format!("shout({} add hq())", e.t)),
+                    1 => self.emit(format!("shout([{}, hq(), {}])", e.t, e.t)),
+                    2 => self.emit(format!("shout({} add hq() add hq())", e.t)),
+                    _ => self.emit(format!("shout(({}).replace(hq(), \"!\"))", Self::pstr(&e))),
+                }
+                self.shape("held_across_loop_first");
+            }
             _ => {
                 // an argument list: the next argument stores
                 let st = self.storer_call(slen, 0);
@@ -2645,7 +2992,7 @@ impl Gen {
         let s = self.pick_target(Ty::Str).map(|v| v.name);
         let a = self.pick_target(Ty::ArrS).map(|v| v.name);
         let p = vec![("ps0".to_string(), Ty::Str)];
-        if let Some(s) = s {
+        if let Some(s) = s.clone() {
             self.emit(format!("do hs(ps0) start\n{s} get ps0 add \"\"\nreturn \"!\"\nend"));
             self.storers.push(self.funcs.len());
             self.funcs.push(Func { name: "hs".into(), params: p.clone(), ret: Some(Ty::Str), recursive: false });
@@ -2658,6 +3005,17 @@ impl Gen {
             self.storers.push(self.funcs.len());
             self.funcs.push(Func { name: "ha".into(), params: p.clone(), ret: Some(Ty::Str), recursive: false });
         }
+        // no parameter, no local, a loop first thing: the callee's first frame mark is the end of whatever the
+        // caller holds on the frame at the moment of the call (a computed operand of any length)
+        let body = match &s {
+            Some(s) => format!("{s} get ({s} add \"abcdefgh\").slice(0, 40)"),
+            None => "make lq get \"q\" add gq".to_string(),
+        };
+        self.emit(format!(
+            "make gq get 0\ndo hq() start\ngq get 0\njasi (gq small pass 2) start\ngq get gq add 1\n{body}\nend\nreturn \"q\"\nend"
+        ));
+        self.loop_first = Some(self.funcs.len());
+        self.funcs.push(Func { name: "hq".into(), params: Vec::new(), ret: Some(Ty::Str), recursive: false });
         // a local of the callee: the slot is taken and given back before the caller goes on
         self.emit("do hl(ps0) start\nmake l get ps0 add \"\"\nreturn l\nend".to_string());
         self.storers.push(self.funcs.len());
@@ -2718,11 +3076,28 @@ impl Gen {
         for i in 0..nf {
             self.gen_function(base + i);
         }
+        // now and then: more than a quarter of one pool class's slots alive, then released in bulk (own names)
+        let bulk = if self.rng.chance(1, 160) {
+            let class = if self.rng.chance(1, 8) { self.rng.below(4) } else { 4 + self.rng.below(16) } as usize;
+            let release = *self.rng.pick(&BULK_RELEASES[..5]);
+            bulk_program(class, release, 0).map(|(tag, text)| format!("start\n# {tag}\n{text}\nend"))
+        } else {
+            None
+        };
+        let bulk_first = self.rng.chance(1, 2);
+        if let (Some(b), true) = (&bulk, bulk_first) {
+            self.emit(b.clone());
+            self.shape("mass_release_block");
+        }
         // main
         let mut first = true;
         while self.budget > 0 || first {
             first = false;
             self.stmt();
+        }
+        if let (Some(b), false) = (&bulk, bulk_first) {
+            self.emit(b.clone());
+            self.shape("mass_release_block");
         }
         // every function runs at least once
         for fi in 0..self.funcs.len() {
